@@ -725,6 +725,7 @@ enum Item {
     Strings(&'static str, Vec<u8>, Vec<u8>, usize),
     AllBytes(u8, bool),
     Av1Bits(u32, u32),
+    Av1Headers(Vec<frames::SeqHdr>),
     Exemplars(Vec<Vec<u8>>),
     Stateful(MCfg),
     Frag(FragmentConfig, usize),
@@ -765,6 +766,11 @@ pub fn check(ctx: &Ctx) -> i32 {
     let bits = if ctx.thorough { 24 } else { 20 };
     for chunk in 0..64u32 {
         items.push(Item::Av1Bits(bits, chunk));
+    }
+    let av1_hdrs = crate::codeccfg::av1_headers(ctx.thorough);
+    let n_av1_hdrs = av1_hdrs.len();
+    for ch in av1_hdrs.chunks(4000) {
+        items.push(Item::Av1Headers(ch.to_vec()));
     }
     let ex = exemplars();
     let n_ex = ex.len();
@@ -833,6 +839,33 @@ pub fn check(ctx: &Ctx) -> i32 {
                 }
             }
         }
+        Item::Av1Headers(hs) => {
+            // every header of the generator's branch product (incl. uvlc escapes, scalable
+            // streams, every colour branch): through the parser, as a first keyframe, and as a
+            // builder-supplied sequence header of a fragmented muxer
+            for (k, h) in hs.iter().enumerate() {
+                let seq = frames::av1_seq_obu(h);
+                let frame = [frames::obu(2, false, true, &[]), seq.clone(), frames::obu(6, false, true, &[0x10, 0x41])].concat();
+                t.evaluations += 3;
+                if let Err(pm) = guarded(|| {
+                    let _ = av1::extract_av1_config(&frame);
+                    let _ = av1::is_av1_keyframe(&frame);
+                }) {
+                    report(t, "av1::extract_av1_config", &pm, (idx as u64, k as u64), || json!({"engine": "E2-c12-stateless", "entry": "av1::extract_av1_config", "input": hex(&frame)}));
+                }
+                if let Err(pm) = guarded(|| {
+                    if let Ok(mut m) = muxide::api::MuxerBuilder::new(Vec::<u8>::new()).video(muxide::api::VideoCodec::Av1, 640, 480, 30.0).build() {
+                        let _ = m.write_video(0.0, &frame, true).map_err(|e| e.to_string());
+                        let _ = m.finish_in_place().map_err(|e| e.to_string());
+                    }
+                    if let Ok(mut f) = muxide::api::MuxerBuilder::new(Vec::<u8>::new()).video(muxide::api::VideoCodec::Av1, 640, 480, 30.0).with_av1_sequence_header(seq.clone()).new_with_fragment() {
+                        let _ = f.init_segment();
+                    }
+                }) {
+                    report(t, "Muxer/AV1-header", &pm, (idx as u64, k as u64), || json!({"engine": "E2-c12-av1-header", "frame": hex(&frame)}));
+                }
+            }
+        }
         Item::Exemplars(list) => {
             let mut k = 0u64;
             for e in list {
@@ -864,7 +897,7 @@ pub fn check(ctx: &Ctx) -> i32 {
         Item::Frag(c, d) => frag_item(c, if c.sps.len() > 1000 { 1 } else { *d }, idx as u64, t),
     }
     if prof && t0.elapsed().as_millis() > 1500 {
-        eprintln!("slow item {idx}: {} ms kind {}", t0.elapsed().as_millis(), match it { Item::Strings(..) => "strings", Item::AllBytes(..) => "allbytes", Item::Av1Bits(..) => "av1bits", Item::Exemplars(..) => "exemplars", Item::Stateful(c) => { eprintln!("{c:?}"); "stateful" }, Item::Frag(..) => "frag" });
+        eprintln!("slow item {idx}: {} ms kind {}", t0.elapsed().as_millis(), match it { Item::Strings(..) => "strings", Item::AllBytes(..) => "allbytes", Item::Av1Bits(..) => "av1bits", Item::Av1Headers(..) => "av1headers", Item::Exemplars(..) => "exemplars", Item::Stateful(c) => { eprintln!("{c:?}"); "stateful" }, Item::Frag(..) => "frag" });
     }
     });
     builder_misc(&mut tally);
@@ -882,7 +915,7 @@ pub fn check(ctx: &Ctx) -> i32 {
         &tally,
         Meta {
             level: "exploration",
-            rule: format!("stateless: {} public entry points of codec::* and validation on (i) all byte strings of length <= 2 over all 256 values (thorough: also length 3 for the header parsers), (ii) all strings of length <= {slen} over four 10-byte boundary alphabets, (iii) all 2^{bits} AV1 sequence-header payloads of {bits} bits, (iv) every truncation, every single and (first 12 bytes) double boundary-byte substitution of {n_ex} valid exemplars; stateful: every Muxer method in 7 lifecycle states (+ after a failed finish) with every argument tuple over a 14-value f64 alphabet, 6 video / 6 audio payload shapes and integer extremes, each followed by finish, over {n_mc} configurations (dimension, frame-rate, sample-rate, channel, title, creation-time and language extremes); FragmentedMuxer: every call sequence of length <= {fdepth} over 70 calls (64 pts/dts pairs over u64 extremes) on {n_fc} FragmentConfig values incl. timescale 0 and empty / 70000-byte parameter sets; builder parameter product; ADTS error values; 12 creation times up to u64::MAX in child processes with a 5 s limit. Oracle: no unwind (catch_unwind, overflow checks and debug assertions on), no stall. distinct_nontrivial counts distinct (stateless entry point, input length class, return class) triples observed plus entry points registered.", fns.len()),
+            rule: format!("stateless: {} public entry points of codec::* and validation on (i) all byte strings of length <= 2 over all 256 values (thorough: also length 3 for the header parsers), (ii) all strings of length <= {slen} over four 10-byte boundary alphabets, (iii) all 2^{bits} AV1 sequence-header payloads of {bits} bits and the {n_av1_hdrs} syntactically valid headers of C07's branch product (uvlc escapes, scalable streams) through the parser, a first keyframe + finish and a fragmented init segment, (iv) every truncation, every single and (first 12 bytes) double boundary-byte substitution of {n_ex} valid exemplars; stateful: every Muxer method in 7 lifecycle states (+ after a failed finish) with every argument tuple over a 14-value f64 alphabet, 6 video / 6 audio payload shapes and integer extremes, each followed by finish, over {n_mc} configurations (dimension, frame-rate, sample-rate, channel, title, creation-time and language extremes); FragmentedMuxer: every call sequence of length <= {fdepth} over 70 calls (64 pts/dts pairs over u64 extremes) on {n_fc} FragmentConfig values incl. timescale 0 and empty / 70000-byte parameter sets; builder parameter product; ADTS error values; 12 creation times up to u64::MAX in child processes with a 5 s limit. Oracle: no unwind (catch_unwind, overflow checks and debug assertions on), no stall. distinct_nontrivial counts distinct (stateless entry point, input length class, return class) triples observed plus entry points registered.", fns.len()),
             bound: format!("string length {slen}, AV1 payload bits {bits}, fragmented depth {fdepth}"),
             exhaustive: true,
             assumptions: vec!["functions whose documented purpose is to panic (assert_invariant! with a false condition, contract_test with a missing invariant) are exempt".into(), "allocation failure aborts the process and is out of scope (no input above 70000 bytes is used)".into()],
